@@ -1,8 +1,33 @@
 (* Props/C02.v -- C02: whatever the library emits in strict mode is valid STIX.
-   Only statements; proofs are in Proofs/Schema*.v.                              *)
+   Only statements; proofs are in Proofs/Schema*.v.
+
+   Vocabulary.  `run vr ev w pattern_ok selectors_ok fuel req` is the model of one API call
+   (Model/Schema.v: parse / parse_observable / a class constructor, over the class tables `w`), `encode
+   false o` is serialization, `valid_obj sp pattern_ok m cid j` is the specification validator
+   (Spec/StixValid.v) for the class `cid` of the frozen tables `sp`, with fuel m.
+
+   FULL statement (the target; not yet proved):
+
+     strict_sound :
+       forall vr ev w sp pok sok fuel req oc inner dfl hc,
+         variant_sound vr = true -> env_ok ev = true -> world_refines w sp = true ->
+         req_strict req = true ->
+         run vr ev w pok sok fuel req = Ok (PObject oc inner dfl hc) ->
+         hc = false /\ exists m, valid_obj sp pok m oc (encode false (PObject oc inner dfl hc)) = true.
+
+   What is proved below is strict_sound_partial: the same statement with two explicit boolean
+   restrictions, and nothing else (every input JSON value, every fuel, every class table):
+     - req_scope req = true: the input uses neither documented loophole of strict mode -- no
+       "custom_properties" member, no "extension-definition--..." extension key, no extension entry
+       declaring itself a toplevel-property-extension (the library does not look inside those);
+     - class_proved n w oc = true: the class of the result, and every class it can embed, only uses
+       property kinds, co-constraint forms and __init__ forms whose soundness lemma is proved so far
+       (Proofs/SchemaProved.v: leaf_proved, constr_proved, init_proved).  lib_covered lists the classes
+       of the generated tables for which this holds; it is recomputed by the kernel on every build.  *)
 From Coq Require Import NArith ZArith List String Bool.
-From V Require Import Base.UString Base.Json Model.SchemaTypes Model.PyBase Model.Schema
-     Spec.StixValid Spec.SchemaRefine Gen.Tables Gen.SpecTables Proofs.SchemaTables.
+From V Require Import Base.UString Base.Json Model.SchemaTypes Model.PyBase Model.Schema Model.SchemaRun
+     Spec.StixValid Spec.SchemaRefine Gen.Tables Gen.SpecTables
+     Proofs.SchemaScope Proofs.SchemaProved Proofs.SchemaKnot Proofs.SchemaTables Proofs.SchemaC02.
 Import ListNotations.
 
 (* The side condition of strict_sound, discharged by the kernel on the tables regenerated from /repo:
@@ -16,3 +41,47 @@ Print Assumptions lib_refines_spec_modulo_failures.
 Theorem relax_nothing_is_spec : relax lib spec [] = spec.
 Proof. exact relax_nil_spec. Qed.
 Print Assumptions relax_nothing_is_spec.
+
+(* for an ARBITRARY class table w and specification table sp *)
+Theorem strict_sound_partial :
+  forall (vr : variant) (ev : env) (w sp : world)
+         (pattern_ok : ver -> ustring -> bool) (selectors_ok : list (ustring * pval) -> pval -> result bool)
+         (fuel n : nat) (req : request) oc inner dfl hc,
+    variant_sound vr = true -> env_ok ev = true -> world_refines w sp = true ->
+    req_strict req = true -> req_scope req = true ->
+    run vr ev w pattern_ok selectors_ok fuel req = Ok (PObject oc inner dfl hc) ->
+    class_proved n w oc = true ->
+    hc = false /\ exists m, valid_obj sp pattern_ok m oc (encode false (PObject oc inner dfl hc)) = true.
+Proof. exact strict_sound_partial_gen. Qed.
+Print Assumptions strict_sound_partial.
+
+(* ... instantiated with the tables regenerated from /repo and the frozen specification (relaxed where
+   lib_refines_spec_modulo_failures says; spec_relaxed = spec when refine_failures lib spec = []) *)
+Theorem strict_sound_partial_generated_tables :
+  forall (vr : variant) (ev : env) pattern_ok selectors_ok fuel req oc inner dfl hc,
+    variant_sound vr = true -> env_ok ev = true ->
+    req_strict req = true -> req_scope req = true ->
+    run vr ev lib pattern_ok selectors_ok fuel req = Ok (PObject oc inner dfl hc) ->
+    In oc lib_covered ->
+    hc = false /\ exists m, valid_obj spec_relaxed pattern_ok m oc (encode false (PObject oc inner dfl hc)) = true.
+Proof. exact strict_sound_partial_lib. Qed.
+Print Assumptions strict_sound_partial_generated_tables.
+
+(* the defective variants are refuted: a strict, in-scope request that succeeds and whose serialization
+   no validator fuel accepts (the witnesses are also run on the implementation by the check) *)
+Theorem strict_sound_refuted_dollar_anchor : refuted_by vr_dollar_hex req_hex.
+Proof. exact refuted_hex. Qed.
+Print Assumptions strict_sound_refuted_dollar_anchor.
+
+Theorem strict_sound_refuted_uuid_text : refuted_by vr_uuid_lax req_uuid.
+Proof. exact refuted_uuid. Qed.
+Print Assumptions strict_sound_refuted_uuid_text.
+
+Theorem strict_sound_refuted_empty_extensions : refuted_by vr_ext_empty req_ext_empty.
+Proof. exact refuted_ext_empty. Qed.
+Print Assumptions strict_sound_refuted_empty_extensions.
+
+(* the hypotheses are satisfiable *)
+Example variant_sound_repaired : variant_sound variant_repaired = true. Proof. reflexivity. Qed.
+Example env_ok_sentinel : env_ok sentinel_env = true. Proof. vm_compute. reflexivity. Qed.
+Example covered_nonempty : lib_covered <> []. Proof. discriminate. Qed.
